@@ -249,4 +249,140 @@ Proof.
   rewrite Hch, b64_roundtrip, str_eqb_refl by (unfold content_hash in Ech; destruct (too_big _); [discriminate|injection Ech as <-; apply H_bytes]).
   reflexivity.
 Qed.
+
+(** * verify_event, characterised. *)
+Definition verdict_of (hash calc : str) : verified :=
+  match b64_decode false hash with
+  | Some h => if str_eqb h calc then VAll else VSignatures
+  | None => VSignatures
+  end.
+
+Theorem verify_event_spec pkm o R red hash sigmap servers calc :
+  redact (redaction R) o None = Ok red -> stored_hash o = Ok hash ->
+  lookup s!"signatures" o = Some (JObj sigmap) ->
+  servers_to_check user_server event_server (signatures R) o = Ok servers ->
+  content_hash H o = Ok calc ->
+  verify_event user_server event_server H verify pkm o R =
+  if forallb (entity_ok verify pkm sigmap (signing_bytes red)) servers
+  then Ok (verdict_of hash calc) else Err 0.
+Proof.
+  intros E1 E2 E3 E4 E5. unfold verify_event. change C05.Model.k_signatures with s!"signatures".
+  rewrite E1, E2. cbn [obind]. rewrite E3, E4. cbn [obind]. rewrite verify_all_spec.
+  destruct (forallb _ servers); cbn [obind]; [|reflexivity]. rewrite E5. unfold verdict_of.
+  destruct (b64_decode false hash) as [h|]; [|reflexivity]. destruct (str_eqb h calc); reflexivity.
+Qed.
+
+(** A success needs all five ingredients. *)
+Theorem verify_event_ok_inv pkm o R vd :
+  verify_event user_server event_server H verify pkm o R = Ok vd ->
+  exists red hash sigmap servers calc,
+    redact (redaction R) o None = Ok red /\ stored_hash o = Ok hash /\
+    lookup s!"signatures" o = Some (JObj sigmap) /\
+    servers_to_check user_server event_server (signatures R) o = Ok servers /\
+    content_hash H o = Ok calc /\
+    forallb (entity_ok verify pkm sigmap (signing_bytes red)) servers = true /\
+    vd = verdict_of hash calc.
+Proof.
+  intros Hv. unfold verify_event in Hv. change C05.Model.k_signatures with s!"signatures" in Hv.
+  destruct (redact (redaction R) o None) as [red| |] eqn:E1; try discriminate.
+  destruct (stored_hash o) as [hash| |] eqn:E2; cbn [obind] in Hv; try discriminate.
+  destruct (lookup s!"signatures" o) as [[| | | | |sigmap]|] eqn:E3; try discriminate.
+  destruct (servers_to_check user_server event_server (signatures R) o) as [servers| |] eqn:E4;
+    cbn [obind] in Hv; try discriminate.
+  rewrite verify_all_spec in Hv.
+  destruct (forallb _ servers) eqn:E6; cbn [obind] in Hv; [|discriminate].
+  destruct (content_hash H o) as [calc| |] eqn:E5; try discriminate.
+  exists red, hash, sigmap, servers, calc. repeat split; try reflexivity; try assumption.
+  unfold verdict_of. destruct (b64_decode false hash) as [h|]; [|congruence].
+  destruct (str_eqb h calc); congruence.
+Qed.
+
+(** Verification fails when a checked server lacks a valid supported signature. *)
+Theorem missing_required_signature_fails pkm o R s :
+  (exists servers, servers_to_check user_server event_server (signatures R) o = Ok servers /\ In s servers) ->
+  (forall red sigmap, redact (redaction R) o None = Ok red -> lookup s!"signatures" o = Some (JObj sigmap) ->
+      entity_ok verify pkm sigmap (signing_bytes red) s = false) ->
+  forall vd, verify_event user_server event_server H verify pkm o R <> Ok vd.
+Proof.
+  intros (servers & Es & Hin) Hbad vd Hv.
+  destruct (verify_event_ok_inv pkm o R vd Hv) as (red & hash & sigmap & servers' & calc & E1 & _ & E3 & E4 & _ & Hall & _).
+  rewrite Es in E4. injection E4 as <-. rewrite forallb_forall in Hall.
+  specialize (Hall s Hin). rewrite (Hbad red sigmap E1 E3) in Hall. discriminate.
+Qed.
+
+(** The verdict depends only on: the redacted event's signing bytes, the stored hash, the
+    signatures, the servers to check, and the content hash.  Consequences: a change confined to
+    a hashed field that redaction strips keeps the signature verdict and turns All into
+    Signatures when the digest differs. *)
+Theorem verify_event_frame pkm o o' R red red' :
+  redact (redaction R) o None = Ok red -> redact (redaction R) o' None = Ok red' ->
+  signing_bytes red' = signing_bytes red ->
+  stored_hash o' = stored_hash o -> lookup s!"signatures" o' = lookup s!"signatures" o ->
+  servers_to_check user_server event_server (signatures R) o' =
+  servers_to_check user_server event_server (signatures R) o ->
+  forall vd calc calc', verify_event user_server event_server H verify pkm o R = Ok vd ->
+  content_hash H o = Ok calc -> content_hash H o' = Ok calc' ->
+  exists hash, stored_hash o = Ok hash /\
+    verify_event user_server event_server H verify pkm o' R = Ok (verdict_of hash calc').
+Proof.
+  intros E1 E1' Eb Eh Es Esrv vd calc calc' Hv Ec Ec'.
+  destruct (verify_event_ok_inv pkm o R vd Hv) as (r0 & hash & sigmap & servers & c0 & F1 & F2 & F3 & F4 & F5 & Hall & _).
+  rewrite E1 in F1. injection F1 as <-. exists hash. split; [exact F2|].
+  rewrite (verify_event_spec pkm o' R red' hash sigmap servers calc' E1'); try congruence.
+  now rewrite Eb, Hall.
+Qed.
+
+Corollary stripped_field_downgrades pkm o o' R red red' calc calc' hash :
+  redact (redaction R) o None = Ok red -> redact (redaction R) o' None = Ok red' ->
+  signing_bytes red' = signing_bytes red ->
+  stored_hash o' = stored_hash o -> lookup s!"signatures" o' = lookup s!"signatures" o ->
+  servers_to_check user_server event_server (signatures R) o' =
+  servers_to_check user_server event_server (signatures R) o ->
+  verify_event user_server event_server H verify pkm o R = Ok VAll ->
+  stored_hash o = Ok hash -> content_hash H o = Ok calc -> content_hash H o' = Ok calc' ->
+  calc' <> calc ->
+  verify_event user_server event_server H verify pkm o' R = Ok VSignatures.
+Proof.
+  intros E1 E1' Eb Eh Es Esrv Hv Hh Ec Ec' Hne.
+  destruct (verify_event_frame pkm o o' R red red' E1 E1' Eb Eh Es Esrv VAll calc calc' Hv Ec Ec') as (hash' & Hh' & ->).
+  rewrite Hh in Hh'. injection Hh' as <-.
+  destruct (verify_event_ok_inv pkm o R VAll Hv) as (r0 & h0 & sm & sv & c0 & _ & F2 & _ & _ & F5 & _ & Hvd).
+  rewrite Hh in F2. injection F2 as <-. rewrite Ec in F5. injection F5 as <-.
+  unfold verdict_of in *. destruct (b64_decode false hash) as [h|]; [|discriminate].
+  destruct (str_eqb_spec h calc) as [Eh'|_]; [|discriminate]. subst h.
+  destruct (str_eqb_spec calc calc') as [E|_]; [congruence|reflexivity].
+Qed.
+
+(** Changes confined to `unsigned` change nothing (room versions 1-11). *)
+Theorem unsigned_irrelevant pkm v R o u :
+  rules_of v = Some R -> wf_obj o -> wf u -> well_typed v o = true ->
+  verify_event user_server event_server H verify pkm (insert s!"unsigned" u o) R =
+  verify_event user_server event_server H verify pkm o R.
+Proof.
+  intros HR Hwf Hwu Hwt. pose proof (wf_obj_sorted _ Hwf) as Hs.
+  assert (Hwt' : well_typed v (insert s!"unsigned" u o) = true).
+  { unfold well_typed in *. rewrite !lookup_insert.
+    destruct (str_eqb_spec s!"type" s!"unsigned") as [E|_]; [discriminate E|].
+    destruct (str_eqb_spec s!"content" s!"unsigned") as [E|_]; [discriminate E|]. exact Hwt. }
+  assert (Hred : spec_redact v (insert s!"unsigned" u o) = spec_redact v o).
+  { unfold spec_redact. rewrite lookup_insert.
+    destruct (str_eqb_spec s!"type" s!"unsigned") as [E|_]; [discriminate E|].
+    destruct (lookup s!"type" o) as [[| | |ty| |]|]; try reflexivity.
+    apply sorted_ext; try (apply sorted_fmap_obj; try apply sorted_insert; exact Hs).
+    intros k. rewrite !lookup_fmap_obj by (try apply sorted_insert; exact Hs). rewrite lookup_insert.
+    dse k s!"unsigned"; [|reflexivity].
+    assert (Hk : keeps_top v s!"unsigned" = false).
+    { unfold keeps_top. replace (mem_str s!"unsigned" top_always) with false by (vm_compute; reflexivity).
+      replace (mem_str s!"unsigned" top_until_v10) with false by (vm_compute; reflexivity).
+      now destruct (v <=? 10). }
+    rewrite Hk. now destruct (lookup s!"unsigned" o). }
+  unfold verify_event.
+  rewrite (redact_eq_spec v R _ HR (wf_obj_insert _ _ _ Hwf Hwu) Hwt'), (redact_eq_spec v R o HR Hwf Hwt), Hred.
+  assert (Hst : stored_hash (insert s!"unsigned" u o) = stored_hash o).
+  { unfold stored_hash. rewrite lookup_insert. destruct (str_eqb_spec k_hashes s!"unsigned") as [E|_]; [discriminate E|reflexivity]. }
+  rewrite Hst. change C05.Model.k_signatures with s!"signatures". rewrite lookup_insert.
+  destruct (str_eqb_spec s!"signatures" s!"unsigned") as [E|_]; [discriminate E|].
+  rewrite (servers_ignore s!"unsigned" u o (signatures R)) by discriminate.
+  destruct (content_hash_ignores_uncovered H o s!"unsigned" u Hs eq_refl) as [-> _]. reflexivity.
+Qed.
 End Ev.
